@@ -17,6 +17,7 @@ for dir in /verif/seeded/*/; do
   WT="$SCR/wt"
   git -C /repo worktree add -q --detach "$WT" HEAD || continue
   if git -C "$WT" apply "$dir/patch.diff"; then
+    [ -n "${OWN_ONLY:-}" ] && extra=""
     for P in $prop $extra; do
       o="$(SMOOTHMATH_SRC="$WT/src" VERIF_EVIDENCE_DIR="$SCR/ev" VERIF_REPLAY_DIR="$SCR/rp" ./check $P quick 2>&1)"; rc=$?
       n=$(printf '%s\n' "$o" | grep -c '^VIOLATION')
